@@ -692,7 +692,15 @@ class Engine:
         if r[0] == 'model':
             self.models_used[r[2]] += 1
             return r[1](self, callee, args)
-        if r[0] == 'func': return self.run_func(r[1], args)
+        if r[0] == 'func':
+            if args:
+                recv = un(args[0])
+                meth = r[1].name.split('::')[-1]
+                if isinstance(recv, PyObj) and hasattr(recv, 'm_' + meth):
+                    # a harness stub standing in for a crate struct (listed in the evidence of the check using it)
+                    self.models_used['stub:%s::%s' % (type(recv).__name__, meth)] += 1
+                    return recv.mir_call(self, None, meth, args)
+            return self.run_func(r[1], args)
         if r[0] == 'overload':
             # several impls of the same trait for one type (e.g. From<A>, From<B>): pick by argument count / type text
             fs = [g for g in r[1] if len(g.params) == len(args)]
@@ -771,9 +779,12 @@ class Engine:
 
     def drop_value(self, v, seen=None):
         """run Drop impls of crate types inside v (drop glue)"""
-        if not self.drop_types: return
+        if not self.drop_types and getattr(self, 'lock_hook', None) is None: return
         if isinstance(v, Ref):
             if v.kind == 'Box': self.drop_value(v.cell.v)
+            elif v.kind == 'guard':
+                h = getattr(self, 'lock_hook', None)
+                if h: h('unlock', v.cell)
             return
         if isinstance(v, (Struct, Enum)):
             if v.name in self.drop_types:
@@ -995,7 +1006,7 @@ class Engine:
                 raise Panic('assertion failed: %s' % t[3][:80], where=self.where())
             if k == 'drop':
                 c = self.place_cell(fr, t[1])
-                if self.drop_types and c.v is not None: self.drop_value(c.v)
+                if c.v is not None and (self.drop_types or getattr(self, 'lock_hook', None) is not None): self.drop_value(c.v)
                 bb = t[2]; continue
             if k == 'unreachable': raise Panic('entered unreachable code in ' + f.name)
             if k == 'resume': raise Panic('unwind resume in ' + f.name)
